@@ -17,6 +17,18 @@ import (
 
 func tok(t token.Type, lit string) token.Token { return token.Token{Type: t, Literal: lit} }
 
+// BlankOperatorLiterals: while set, the tokens of operator nodes (binary, prefix, postfix, assignment, compound
+// assignment) are built with an empty Literal — a node assembled by a plugin that fills in the Operator field and the
+// token type but not the token text. The printer writes operators from the Operator field.
+var BlankOperatorLiterals bool
+
+func opTok(t token.Type, lit string) token.Token {
+	if BlankOperatorLiterals {
+		return token.Token{Type: t}
+	}
+	return token.Token{Type: t, Literal: lit}
+}
+
 // binaryTokens lists every binary operator of xjs, lowest precedence first.
 var binaryTokens = [...]struct {
 	typ token.Type
@@ -41,7 +53,7 @@ func BinaryOperators() []string {
 func binaryToken(op string) token.Token {
 	for _, b := range binaryTokens {
 		if b.lit == op {
-			return tok(b.typ, b.lit)
+			return opTok(b.typ, b.lit)
 		}
 	}
 	panic("treegen: unknown binary operator " + op)
@@ -50,13 +62,13 @@ func binaryToken(op string) token.Token {
 func prefixToken(op string) token.Token {
 	switch op {
 	case "!":
-		return tok(token.NOT, "!")
+		return opTok(token.NOT, "!")
 	case "-":
-		return tok(token.MINUS, "-")
+		return opTok(token.MINUS, "-")
 	case "++":
-		return tok(token.INCREMENT, "++")
+		return opTok(token.INCREMENT, "++")
 	case "--":
-		return tok(token.DECREMENT, "--")
+		return opTok(token.DECREMENT, "--")
 	}
 	panic("treegen: unknown prefix operator " + op)
 }
@@ -64,9 +76,9 @@ func prefixToken(op string) token.Token {
 func postfixToken(op string) token.Token {
 	switch op {
 	case "++":
-		return tok(token.INCREMENT, "++")
+		return opTok(token.INCREMENT, "++")
 	case "--":
-		return tok(token.DECREMENT, "--")
+		return opTok(token.DECREMENT, "--")
 	}
 	panic("treegen: unknown postfix operator " + op)
 }
@@ -127,7 +139,7 @@ func Postfix(op string, l ast.Expression) *ast.PostfixExpression {
 
 // Assign builds `l = v`.
 func Assign(l, v ast.Expression) *ast.AssignmentExpression {
-	return &ast.AssignmentExpression{Token: tok(token.ASSIGN, "="), Left: l, Value: v}
+	return &ast.AssignmentExpression{Token: opTok(token.ASSIGN, "="), Left: l, Value: v}
 }
 
 // Compound builds `l += v` (op "+=") or `l -= v` (op "-="). As in the parser, the node's
@@ -135,9 +147,9 @@ func Assign(l, v ast.Expression) *ast.AssignmentExpression {
 func Compound(op string, l, v ast.Expression) *ast.CompoundAssignmentExpression {
 	switch op {
 	case "+=":
-		return &ast.CompoundAssignmentExpression{Token: tok(token.PLUS_ASSIGN, "+="), Left: l, Operator: "+", Value: v}
+		return &ast.CompoundAssignmentExpression{Token: opTok(token.PLUS_ASSIGN, "+="), Left: l, Operator: "+", Value: v}
 	case "-=":
-		return &ast.CompoundAssignmentExpression{Token: tok(token.MINUS_ASSIGN, "-="), Left: l, Operator: "-", Value: v}
+		return &ast.CompoundAssignmentExpression{Token: opTok(token.MINUS_ASSIGN, "-="), Left: l, Operator: "-", Value: v}
 	}
 	panic("treegen: unknown compound assignment " + op)
 }
